@@ -973,6 +973,8 @@ def note_probes_call(w, m, rec, out):
 
 def note_probes_utils(w, rec, args, out):
     name = rec["fn"]
+    if rec.get("noext"):
+        w.probes["pdag.without_consistent_extension(nodes removed first)"] += 1
     if out[0] != "ok":
         if rec.get("invalid"):
             w.faults["call.invalid"] += 1
@@ -1625,6 +1627,7 @@ def generate(run_seed, deep=False):
             r2.pop("keep", None)
             ops.append(r2)
     G.bitgen_variation(st["bitgen"], ops)
+    no_extension_variation(st["noext"], ops)
     np_star_faults(st["np_star"], ops)
     giant_samples(st["giant"], gs, ops, nclients)
     plot_calls(st["plot"], gs, ops, nclients)
@@ -1716,6 +1719,23 @@ def plot_calls(f, gs, ops, nclients):
             again = {k: v for k, v in copy.deepcopy(rec).items() if k not in ("arm", "sweep")}
             again["c"] = f.randrange(nclients)
             ops.insert(f.randint(pos + 1, len(ops)), again)
+
+
+NOEXT_FNS = ("pdag_to_dag", "has_consistent_extension", "pdag_to_cpdag", "maximally_orient", "pdag_to_icpdag")
+
+
+def no_extension_variation(f, ops):
+    """A fifth of the calls that look for a consistent extension get a PDAG that has none and in which some nodes are
+    removed before the search gets stuck (an undirected chordless cycle with pendant nodes): the failure - or the
+    negative answer - comes late, after work on the matrix began.  Decided by a stream of its own, after generation."""
+    for rec in ops:
+        r = f.random()
+        if rec.get("op") != "u.call" or rec.get("fn") not in NOEXT_FNS:
+            continue
+        P = U.pdag_without_extension(f)
+        if r < 0.2 and not any_ref(rec.get("args")) and isinstance(rec["args"][0], dict) and "__call__" not in rec["args"][0]:
+            rec["args"][0] = enc(P)
+            rec["noext"] = True
 
 
 def np_star_faults(f, ops):
@@ -1877,7 +1897,7 @@ REQUIRED_PROBES = ["iv.do.non_source", "iv.shift.non_source", "iv.noise.non_sour
                    "utils.unseeded_call",
                    "nd.check_valid"]
 
-REQUIRED_PROBES = REQUIRED_PROBES + ["sweep.call_repeated_after_the_failures", "call.after_its_hash_twin(-1 / -2)", "thread.calls_outside_main_thread", "fault.died_in_a_numpy_call(np.*)", "sweep.np_star", "sample.giant(>=2**20 values)", "display.plotting_call", "display.request_failed", "arg.is_an_attribute_of_a_live_model"]
+REQUIRED_PROBES = REQUIRED_PROBES + ["sweep.call_repeated_after_the_failures", "call.after_its_hash_twin(-1 / -2)", "thread.calls_outside_main_thread", "fault.died_in_a_numpy_call(np.*)", "sweep.np_star", "sample.giant(>=2**20 values)", "display.plotting_call", "display.request_failed", "arg.is_an_attribute_of_a_live_model", "pdag.without_consistent_extension(nodes removed first)"]
 
 
 def simplify(op):
